@@ -135,7 +135,7 @@ from guppylang_internals.tys.builtin import (
 from guppylang_internals.tys.const import Const, ConstValue
 from guppylang_internals.tys.param import ConstParam, TypeParam, check_all_args
 from guppylang_internals.tys.parsing import arg_from_ast
-from guppylang_internals.tys.subst import Inst, Subst
+from guppylang_internals.tys.subst import Inst, Subst, resolve_subst
 from guppylang_internals.tys.ty import (
     ExistentialTypeVar,
     FuncInput,
@@ -856,6 +856,9 @@ def check_type_against(
         subst = unify(exp, unquantified, {})
         if subst is None:
             raise GuppyTypeError(TypeMismatchError(node, exp, act, kind))
+        # The solutions may mention variables that are solved as well (for example the
+        # existential variables we just introduced for the params of `act`)
+        subst = resolve_subst(subst)
         # Check that we have found a valid instantiation for all params
         for i, v in enumerate(free_vars):
             param = act.params[i].name
